@@ -300,6 +300,9 @@ func (p *eparser) unary() Expr {
 	if p.accept("-") {
 		return &EUn{"-", p.unary()}
 	}
+	if p.accept("*") {
+		return &EUn{"*", p.unary()}
+	}
 	return p.postfix()
 }
 
@@ -659,7 +662,7 @@ func parseSig(text string) (name string, params []Binder, rest string, err error
 
 // Load reads the `//@` lines of one contract file. pkg is the Go package name
 // the file belongs to.
-func (sf *SpecFile) Load(path, pkg string) error {
+func (sf *SpecFile) Load(path, pkg string) (err error) {
 	data, err := os.ReadFile(path)
 	if err != nil {
 		return err
@@ -818,6 +821,20 @@ func (sf *SpecFile) Load(path, pkg string) error {
 				if f[i] == "props" {
 					cur.Props = append(cur.Props, f[i+1:]...)
 					break
+				}
+				switch f[i] {
+				case "trusted":
+					cur.Trusted = true
+				case "pure":
+					cur.Pure = true
+				case "safe":
+					cur.Safe = true
+				case "nowrap":
+					cur.NoWrap = true
+				case "inline":
+					cur.Inline = true
+				default:
+					return fmt.Errorf("%s:%d: unexpected %q after the function name", path, rc.line, f[i])
 				}
 			}
 		case "props":
